@@ -183,9 +183,16 @@ func (r *NgReader) readBlock() error {
 		} else {
 			return errors.New("Wrong byte order value in Section Header")
 		}
+		if r.getUint32(r.buf[4:8]) < 12+4 {
+			return errors.New("Section Header block length too small")
+		}
 		// Set length to remaining length (length - (type + lengthfield = 8) - 4 for byteOrderMagic)
 		r.currentBlock.length = r.getUint32(r.buf[4:8]) - 8 - 4
 		return nil
+	}
+	// every block carries its type and its total length twice (12 bytes)
+	if r.getUint32(r.buf[4:8]) < 12 {
+		return errors.New("Block length too small")
 	}
 	// Set length to remaining length (length - (type + lengthfield = 8)
 	r.currentBlock.length = r.getUint32(r.buf[4:8]) - 8
